@@ -11,6 +11,17 @@ NOTE = ("Trusted: the symgo engine (fork of x/tools go/ssa/interp + SMT encoding
 
 # id -> (claim text, design ref)
 CLAIMS = {
+ "C04": ("writeState/readState round trip for all 40-bit metadata offsets (records with offsets not below themselves rejected); "
+         "scenario: a HeapStor database with one of five schema histories (plain, table created+persisted+dropped, view, alter create, "
+         "rename), 1..2 committed rows with arbitrary 1-byte values, merge/persist points chosen, an uncommitted transaction in flight: "
+         "after clean Close and OpenDbStor, twice, schema text, views, both indexes, rows and counts equal those before closing; the "
+         "dropped table and the uncommitted row do not appear. The mmap file layer is outside.", "4 C04"),
+ "C13": ("Packed integers: every int64 (by sign and digit-count class) round-trips, PackSize == length, the bytes match an "
+         "independent statement of the number format, SuInt64/decimal/small-int representations pack identically; every valid Dnum "
+         "(all 16-digit coefficients, all exponents, zero, infinities) round-trips and pack order == dnum.Compare for non-negative, "
+         "mixed-sign and equal-length negative pairs; dates/timestamps (all 32-bit words) and strings of 0..3 bytes round-trip and "
+         "order; tag order bool < number < string < date; empty string smallest. The negative-prefix order defect is a known finding. "
+         "Containers are NOT covered.", "4 C13"),
  "C01": ("Scenario on the real db19 transaction layer (HeapStor, synchronous checker, deterministic victim choice): one committed "
          "row and two overlapping update transactions, each one read (range scan of the key index, or keyed lookup that may miss) "
          "then one write (insert, or key-changing update) with arbitrary 1-byte values, in 4 interleavings (thorough: every read/write "
@@ -87,8 +98,9 @@ CLAIMS = {
  "C39": ("ordset and ranges (node capacity shrunk to 4 so splits/coalescing/leaf removal occur; and real capacity): one Insert from an "
          "arbitrary valid pre-state of stated shapes (0..16 entries, 1..4 leaves, full tree) with arbitrary keys of 0..1 bytes, and "
          "histories from empty: Contains/AnyInRange for an arbitrary probe equal the set / interval-union model, invariants (sorted, "
-         "unique/disjoint, separators) re-established, result codes consistent. sortlist, bloom, roaring, shmap, lrucache, cache are "
-         "NOT covered.", "4 C39"),
+         "unique/disjoint, separators) re-established, result codes consistent. sortlist (block size shrunk to 4, Finish+Sort path, "
+         "0..17 values, two arbitrary): the iterator yields exactly the values in order; cache: Get(k) == getter(k) for every script "
+         "of 4 gets incl. a key whose getter panics. bloom, roaring, shmap, lrucache and sortlist's worker goroutine are NOT covered.", "4 C39"),
  "C41": ("The real server dispatch (doRequest -> request -> cmds[c]) on an unauthenticated connection: one request with arbitrary "
          "command byte and 0..3 (thorough 4) arbitrary argument bytes, with or without an outstanding nonce: the connection stays "
          "unauthenticated, every command outside {Auth, LibGet, Libraries, Nonce, SessionId, EndSession} is answered with an error, "
